@@ -31,6 +31,11 @@ Vals1 == << ELit(IntV(7)), ELit(StrV(B)), ELit(Null), ECollect(ELit(IntV(7))), E
 Upd1 == << EBin("ADD", ESelf, ELit(IntV(1))), ECollect(ESelf), ELit(StrV(C)), ENul("LENGTH"), EBin("ADD", ESelf, ESelf), EUnion(ELit(IntV(7)), ELit(IntV(0))), EUn("SELECT", ELit(BoolV(FALSE))),
            EBin("MULTIPLY", ESelf, ELit(IntV(2))), EPath(A) >>
 Cmp1 == << ELit(IntV(1)), ELit(StrV(B)), ECollect(ELit(IntV(7))), EPath(B), ELit(NumV(3, 2)), EObject(ELit(StrV(C)), ELit(IntV(7))) >>
+LitSeq(xs) == ECollect(FoldLeft(LAMBDA acc, x : IF acc.op = "EMPTY" THEN x ELSE EUnion(acc, x), EEmpty, xs))
+PathVals == << LitSeq(<<ELit(StrV(A))>>), LitSeq(<<ELit(StrV(A)), ELit(StrV(B))>>), LitSeq(<<ELit(StrV(C)), ELit(IntV(1))>>), LitSeq(<<ELit(StrV(B)), ELit(StrV(B)), ELit(IntV(0))>>),
+              LitSeq(<<ELit(StrV(A)), ELit(IntV(-1))>>), LitSeq(<<ELit(IntV(1))>>), ECollect(EEmpty) >>
+SetVals == << ELit(IntV(7)), ECollect(ELit(IntV(7))), EPath(B), EPipe(EPath(C), EPath(A)), EBin("ALTERNATIVE", EPipe(EPath(C), EPath(B)), ELit(IntV(0))), EBin("ALTERNATIVE", Idx(EPath(A), 5), ELit(StrV(B))),
+             EBin("EQUALS", EPipe(EPath(C), EPath(C)), ELit(Null)), ENul("LENGTH") >>
 Assigns == FlatMap(LAMBDA p : [i \in DOMAIN Vals1 |-> EAssign(p, Vals1[i])], Paths1)
 ExprSeq ==
      Assigns
@@ -48,6 +53,11 @@ ExprSeq ==
         \* assignment under several context nodes: both sides are relative to each node
         EPipe(EPipe(EPath(A), ESplat), EAssign(EPath(A), EPath(B))), EPipe(ESplat, EAssign(EPath(A), EPath(A))), EPipe(EPipe(EPath(A), ESplat), EAssign(EPath(B), ENul("LENGTH"))),
         ECollect(EPipe(EPipe(EPath(A), ESplat), EPipe(EAssign(EPath(C), EPath(A)), EPath(C)))), EPipe(EPipe(EPath(A), ESplat), EBin("ADD_ASSIGN", EPath(A), EPath(A))) >>
+  \* setpath / delpaths: the path as a value; the VALUE of setpath reads paths that may be missing (it must not create them)
+  \o FlatMap(LAMBDA pv : [i \in DOMAIN SetVals |-> EBin("SET_PATH", pv, SetVals[i])], PathVals)
+  \o FlatMap(LAMBDA pv : [i \in DOMAIN SetVals |-> EPipe(EBin("SET_PATH", pv, SetVals[i]), EBin("SET_PATH", pv, ELit(IntV(7))))], PathVals)
+  \o [i \in DOMAIN PathVals |-> EUn("DEL_PATHS", ECollect(PathVals[i]))]
+  \o [i \in DOMAIN PathVals |-> EPipe(ESplat, EBin("SET_PATH", PathVals[i], EBin("ALTERNATIVE", EPipe(EPath(C), EPath(B)), ELit(IntV(0)))))]
 
 ASSUME \A i \in DOMAIN ExprSeq : i % NShards # Shard \/ PrintT("@@" \o ToJson([t |-> "e", i |-> i, e |-> ExprSeq[i]]))
 ASSUME \A i \in DOMAIN DocSeq : PrintT("@@" \o ToJson([t |-> "d", i |-> i, d |-> DocSeq[i]]))
